@@ -128,7 +128,64 @@ def run_path(cfg, pattern, ref):
     return v, reached
 
 
+def replaced_cell(cell):
+    """The order of public calls: calibrate(k); set_scheduler(S2) or set_samplers(L2); [checkpoint, restore]; calibrate(m). Whatever the
+    replacement makes pending on the live object must survive a checkpoint taken right after it."""
+    from black_it.schedulers.round_robin import RoundRobinScheduler
+
+    res = {"evaluations": 0, "nontrivial": 0, "states": 0, "transitions": 0, "traces": 0, "stats": {}, "outcomes": set(), "violations": [], "samples": []}
+    cfg = cell["cfg"]
+    for how in ("set_scheduler", "set_samplers"):
+        for k in (1, 2, 3):
+            for m in (2, 3):
+                for cycles in (1, 2):
+                    def replace(cal):
+                        new = [C.make_sampler(dict(s_, seed=11 + i_)) for i_, s_ in enumerate(cell["lineup2"])]   # (seeded: replacements are not reseeded by the calibrator)
+                        if how == "set_scheduler":
+                            cal.set_scheduler(RoundRobinScheduler(new, random_state=7))
+                        else:
+                            cal.set_samplers(new)
+
+                    live = C.build(cfg)
+                    with quiet():
+                        live.calibrate(k)
+                    replace(live)
+                    with quiet():
+                        live.calibrate(m)
+                    with C.scratch() as tmp:
+                        cut = C.build(cfg)
+                        with quiet():
+                            cut.calibrate(k)
+                        replace(cut)
+                        for _ in range(cycles):
+                            with quiet():
+                                cut.create_checkpoint(str(tmp / "ck"))
+                            cut = C.restore(tmp / "ck", cfg)
+                            cut.saving_folder = None
+                        with quiet():
+                            cut.calibrate(m)
+                    res["evaluations"] += 1
+                    res["traces"] += 1
+                    res["transitions"] += k + m
+                    res["nontrivial"] += 1
+                    def hist(c_):   # the labels in method_samp are C18's subject (its known finding: the id table is rebuilt on restore)
+                        from vf.canon import canon as _canon
+
+                        return _canon({k_: getattr(c_, k_) for k_ in C.HIST if k_ != "method_samp"} | {"n": c_.n_sampled_params, "b": c_.current_batch_index})
+
+                    if hist(cut) != hist(live):
+                        key = f"diverged-after-{how}+r"
+                        if sum(1 for x in res["violations"] if x["key"] == key) < 1:
+                            res["violations"].append({"key": key, "what": f"calibrate({k}); {how}(...); {cycles} x (create_checkpoint; restore); calibrate({m}) gives another history than the same calls without the checkpoint/restore: "
+                                                      f"{diff(hist(live), hist(cut))[:3]}", "case": {"cfg": cfg, "lineup2": cell["lineup2"], "mode": "replaced"}})
+    res["states"] = res["evaluations"]
+    res["outcomes"] = [("replaced", True)]
+    return res
+
+
 def run_cell(cell):
+    if cell.get("kind") == "replaced":
+        return replaced_cell(cell)
     res = {"evaluations": 0, "nontrivial": 0, "states": 0, "transitions": 0, "traces": 0, "stats": {}, "outcomes": set(), "violations": [], "samples": []}
     cfg, n = cell["cfg"], cell["n"]
     ks = None
@@ -173,6 +230,9 @@ def run_cell(cell):
 
 
 def replay_case(case):
+    if case.get("mode") == "replaced":
+        r = replaced_cell({"cfg": case["cfg"], "lineup2": case["lineup2"]})
+        return [{"key": v["key"], "what": v["what"]} for v in r["violations"]]
     ref = reference_states(case["cfg"], case["n"])
     vs, _ = run_path(case["cfg"], case["pattern"], ref)
     return [{"key": k, "what": w} for k, w in vs]
@@ -204,6 +264,9 @@ def main(ctx):
     # fitted on a growing history): 28, 56, 84 MB
     big = {"lineup": [{"cls": "Halton", "bs": 2}, {"cls": "Ballast", "bs": 2}], "seed": S, "dims": 2, "model": "gauss2", "ensemble": 1, "T": 4}
     cells.insert(0, {"cfg": big, "n": 6, "symbols": "nr", "patterns": [list("nnnrn"), list("nrnnn"), list("nnnnr")] if ctx.quick else [list(p_) for p_ in itertools.product("nr", repeat=5)]})
+    # the scheduler / the line-up replaced between two calls, with a checkpoint taken right after the replacement
+    for lu, lu2 in ((lus[5], [{"cls": "RandomUniform", "bs": 2}, {"cls": "Halton", "bs": 1}]), (lus[13], [{"cls": "RSequence", "bs": 2}, {"cls": "BestBatch", "bs": 2}, {"cls": "RandomUniform", "bs": 1}])):
+        cells.append({"kind": "replaced", "cfg": {"lineup": lu, "seed": S, "dims": 2, "model": "gauss2", "ensemble": 2}, "lineup2": lu2})
     # a user SUBCLASS of Calibrator (it changes how a batch is simulated): stop/restore through the subclass resumes the subclass
     for lu in (lus[0], lus[13]):
         cells.append({"cfg": {"lineup": lu, "seed": S, "dims": 2, "model": "gauss2", "ensemble": 2, "subclass": True}, "n": 4, "symbols": "npr"})
@@ -226,7 +289,7 @@ def main(ctx):
     ctx.bounds = {"n_batches": n, "cut_patterns": f"all 3^{n - 1} over none/plain/restore", "lineups": len(lus), "cells": len(cells)}
     ctx.rule = "every cut pattern of every configuration; non-trivial = pattern with at least one plain or restore boundary; states = distinct (depth, canonical state) pairs (must be one per depth)"
     ctx.assumptions = ["canonical state drops fitted-model caches and the prime-sieve cache (see vf/canon.py)", "calibrate(0) is not in the alphabet"]
-    cells.sort(key=lambda c: -(len(c.get("symbols", "npr")) ** (c["n"] - 1)) * (3 if any(s["cls"] in ("CORS", "GaussianProcess") for s in c["cfg"]["lineup"]) else 1))
+    cells.sort(key=lambda c: -(len(c.get("symbols", "npr")) ** (c.get("n", 4) - 1)) * (3 if any(s["cls"] in ("CORS", "GaussianProcess") for s in c["cfg"]["lineup"]) else 1))
     ctx.pmap("vf.checks.c05:run_cell", cells)
     ctx.require(ctx.stats.get("depths_with_more_than_one_state", 0) == 0 or bool(ctx.violations) or bool(ctx.known), "state graph forked without a reported violation")
     ctx.require(ctx.nontrivial > 500, "too few cut patterns")
